@@ -13,99 +13,95 @@ def prop(id, armed, technique, text, note, na_reason=None):
 
 NOT_YET = "rules designed in DESIGN.md but not armed in the checker yet; nothing is claimed until they are"
 
+ME = "model evaluation: the repository's own source is interpreted by the checker's abstract interpreter (coordinates as abstract ranks or symbols, integers/strings/structure concrete, everything outside the repository replaced by a model) and the values that come out are compared with the specification"
+
 prop("C01", True,
-     "table extraction of the operation constant along call paths, affine copy-loop analysis of the converters, abstract interpretation over the order domain (with nondeterministic answers for calls on an opaque polygon) for the rectangle shortcuts, AST rule over the dependency's trivial-case switches",
-     "Decides the geom-side plumbing around the external clipper and the rectangle shortcuts completely: (R1) each of the 12 receiver×method combinations reaches Construct with its own operation constant; (R2) subject built from the receiver only, clipping operand from every polygon of the parameter, converter copies every ring/vertex at the same index; (R3) result rings get len+1 vertices with last=first; (R4) box-box intersection, Within(*Bounds) and Polygons() agree with the order-level box relation for every weak ordering (exhaustive), and for each of the four *Bounds operations with a general polygon every shortcut result (nil, the box, the argument) follows from the box relation alone — questions the code asks about the polygon's shape (Within, point-in-polygon) are answered in every possible way; (R5) the clipper's trivial-case switches treat XOR like UNION (read from the dependency's source).",
-     "Not decided: the sweep-line clipper for overlapping operands (external numerical algorithm), hence the point-set identity and area identities themselves. Two open known findings (R5: XOR of disjoint/empty operands is empty in polyclip-go v1.1.0).",
+     ME + "; the external clipper is replaced by a recorder; abstract interpretation over all weak orderings of box coordinates with nondeterministic answers for questions asked of an opaque polygon; an AST rule over the dependency's trivial-case switches",
+     "Decides the geom-side plumbing around the external clipper and the rectangle shortcuts: (R1–R3) for Polygon, MultiPolygon and *Bounds receivers and arguments the clipper receives the right operation constant, exactly the receiver's rings as subject and the argument's as clipping operand, and its answer comes back with every ring closed once; (R4) box-box intersection, Within(*Bounds), Polygons() and every shortcut result of the four *Bounds operations follow from the box relation alone, for every weak ordering (exhaustive) and every answer the polygon could give; (R5) the clipper's trivial-case switches treat XOR like UNION (read from the dependency's source).",
+     "Not decided: the sweep-line clipper itself (external numerical algorithm), hence the point-set and area identities for overlapping operands. Two open known findings (R5: XOR of disjoint/empty operands is empty in polyclip-go v1.1.0). Model sizes: 1–2 members, 1–2 rings.",
      None)
 prop("C02", True,
-     "affine loop/index analysis (segment pair sets), shape rules on the type-checked AST, abstract interpretation over the order domain for the pre-filter and for the comparison-only prefixes of the two segment predicates",
-     "Structural necessary conditions: (R1) the on-segment and the ray test each see exactly the closed ring (chain 0..len-2 plus the closing pair) of every ring; (R2) OnEdge is returned at once, crossings toggle an even-odd status across rings and member polygons, rings are skipped only for len<3 or by the box pre-filter; (R3) the pre-filter is the closed-box test of the ring's own bounds (never skips a point in or on the box; exhaustive over orderings); (R4) the vertex-wise receivers visit everything and return Outside exactly on an Outside vertex; (R5) every answer the two segment predicates give by comparisons alone equals the order-level geometric truth, for all 169 orderings of {p,a,b} per predicate (either perturbation convention). Thin by nature: the final slope comparisons are arithmetic and not decided.",
-     "Not decided: the slope comparisons of rayIntersectsSegment/pointOnSegment (division, rounding), i.e. the classification of points that survive the order-level exits; the caller in area() that passes a reduced polygon with reduced bounds. One reviewed exception in R4: Polygon.Within returns OnEdge for deeply-equal operands.",
+     ME + "; the two segment predicates and the per-vertex classifier are replaced by oracles whose answers are enumerated; exhaustive abstract interpretation over orderings for the box pre-filter and for the comparison-only prefixes of the two segment predicates",
+     "(R1) with every oracle answer false each segment predicate is asked about every segment of every ring exactly once, the closing pair included; (R2) a single 'on the segment' answer gives OnEdge at once, crossings toggle Inside/Outside summed over rings and member polygons; (R3) the per-ring pre-filter is the closed box test of the ring's own bounds (exhaustive over orderings); (R4) the vertex-wise receivers consult every vertex/member and return Outside exactly when one is classified Outside; (R5) every answer the two segment predicates give by comparisons alone equals the order-level geometric truth for all orderings of {p,a,b} per axis.",
+     "Not decided: the final slope comparisons of the two segment predicates (division, rounding), i.e. the classification of points that survive the order-level exits. Thin by nature.",
      None)
 prop("C03", True,
-     "affine loop/index analysis (segment pair sets), polynomial expansion of fold summands, a parity type system (zero/even/odd/mixed under ring reversal) evaluated by path-sensitive AST dataflow with callee summaries, path-sensitive comparison-fact dataflow for the clamped projection, an axis (X/Y) type rule on comparisons",
-     "Structural necessary conditions: (R1) every fold over consecutive vertices reachable from Area/Length/Distance/Centroid (geom and op) visits the right pair set — shoelace: chain 0..len-2 plus a closing term that equals the loop's own summand at (last, first), behind an empty-ring guard; Length/Distance/centroid loops: the open chain; (R2) orientation parity: Area results are even; Polygon/op Centroid even under global reversal; MultiPolygon.Centroid even under reversal of any single ring (odd/even decided by expanding each summand to a polynomial and comparing with its vertex swap); (R3) member aggregation is a full-range + from 0 / min from +Inf; (R4) in both point-to-segment distance routines the projection parameter is in [0,1] at the foot point and the division producing it has a non-zero divisor on every path (comparison facts closed under transitivity); (R5) no comparison in geom/op relates an X ordinate to a Y ordinate. These are exactly the clauses 'whatever the winding / start vertex / closed-or-not spelling' that tests sample and this decides for all paths.",
-     "Not decided: floating-point accuracy, hole detection by point-in-polygon inside area(), Buffer's trigonometry, numerical agreement of op.* with the root package. Recursive calls (op.Area over nested collections) are assumed even and confirmed by the outer result.",
+     ME + " with symbolic arithmetic: results are normal-form polynomials / rational functions / sums of square roots in the vertex coordinates and are compared with the specification as identities; branches on computed values follow a stated reference figure; path-sensitive comparison-fact dataflow for the clamped projection; an axis (X/Y) type rule on comparisons",
+     "(R1) Polygon.Area and op.Area equal the shoelace area of shells minus holes as a polynomial identity for a triangle, a pentagon and a shell with one and two holes under every per-ring reversal, start vertex and closed/unclosed spelling; Length is the sum of segment lengths and Distance the least point-to-segment distance over all consecutive pairs; (R2) Polygon.Centroid, op.Centroid and MultiPolygon.Centroid equal the area-weighted mean of the ring centroids as rational functions under the reversals and rotations the property names; (R3) the Multi* measures sum / minimise over every member whatever its winding; (R4) the point-to-segment projection parameter is in [0,1] at the foot point and its divisor is non-zero on every path; (R5) no comparison in geom/op relates an X to a Y ordinate.",
+     "Not decided: floating-point rounding (the identities are over the reals), Buffer's trigonometry, figures whose branch decisions differ from the reference figure (one shell with up to two holes, two members), numerical agreement beyond identity of the formulas.",
      None)
 prop("C04", True,
-     "abstract interpretation over the order domain (all weak orderings of the coordinates, exhaustive) + affine loop analysis + path-sensitive guard-freshness dataflow in the iterator closures",
-     "Decides structural necessary conditions on every path/ordering: (R1) Extend/extendPoint are the lattice join with nil/empty operands as identities, NewBounds is the join identity, Overlaps/Empty/Copy and box-box Intersection match their order-level specification for every weak ordering of the eight coordinates incl. the canonical empty box; "
-     "(R2) every Bounds()/Len() is a complete fold over the receiver; (R3) every nested access in a Points() closure sits behind a length guard that is still fresh, and nothing is indexed before the first call; (R4) indices only ++/reset and the element index advances exactly once per call; (R5) axis discipline: none of the ordinate-to-ordinate comparisons in geom, index/rtree and op relates an X ordinate to a Y ordinate (through locals, math.Min/Max and ± axis-free terms). "
-     "Right level: the property quantifies over all geometries incl. runs of empty members and all float values; R1 is exhaustive over the order domain (so exact for all non-NaN floats), R2–R4 cover all paths of the code.",
-     "Not decided: that exactly Len() calls succeed (needs an inductive invariant relating indices to the call count); NaN and -0 behaviour of math.Min/Max. Assumes the closure invariant 'member iterator p corresponds to the current member index' holds at entry (it is re-established on every path that changes the index).",
+     ME + "; abstract interpretation over the order domain (all weak orderings of the coordinates, exhaustive) for the box algebra; an axis (X/Y) type rule",
+     "(R1) Extend/extendPoint are the lattice join with empty operands as identities, NewBounds the join identity, Overlaps/Empty/Copy and box-box Intersection match their order-level specification for every weak ordering of the eight coordinates incl. the canonical empty box; (R2) Len() and Bounds() of all eight types are the vertex count and the smallest box, on model geometries with empty members in every position; (R3) Points() yields exactly Len() vertices in storage order without panicking on the same geometries; (R5) no ordinate comparison in geom, index/rtree and op relates X to Y.",
+     "Not decided: NaN and -0 behaviour of math.Min/Max; geometries larger than the models (up to 3 members per level, runs of empty members).",
      None)
 prop("C05", True,
-     "codec shape extraction (format trees of writers and readers by abstract interpretation of the syntax tree, helpers inlined, loop idioms summarised) compared with the OGC layout; table extraction from switches/registries/SSA return types; order-argument threading rule",
-     "Strong on layout: (R1) for each of the seven types the extracted writer tree equals U8·U32 code·Body(T) with every count being uint32(len(x)) of the collection that follows and members written through Write (own header); the reader trees mirror it (count, then exactly that many members through Read; chunked point reads sum to the count); Point is struct{X,Y float64}; (R2) all 39 order-argument sites pass the element's own order, constant order only for the single flag byte; (R3) code tables of writer, registry, returned concrete types and asserted member types agree and equal OGC 1..7, flag table 0↔big/1↔little with anything else rejected; (R4) hex is EncodeToString/DecodeString around exactly wkb.Encode/Decode.",
-     "Not decided: encoding/binary's own behaviour (trusted: bit-exact float64 transfer, field order = struct order); hence NaN payload preservation follows from that trust. Reader loop idioms accepted: counted member loop, direct slice read, bounded chunk loop with a clamp helper (0 < clamp(n) <= n); anything else is UNDECIDED.",
+     ME + " with encoding/binary replaced by a typed stream; SSA provenance analysis for result freshness; AST rule for the hex wrapper",
+     "(R1) for model geometries of all seven types and both byte orders the stream wkb.Write produces is the OGC layout (order byte, code, counts = members that follow, members complete WKB of their own, every multi-byte item in the requested order); (R2) Read on each reference stream returns the geometry and consumes the stream exactly, members in the other byte order decode correctly, point arrays longer than the allocation chunk come back complete; (R3) truncated messages, unknown codes, bad flags and members of the wrong kind are rejected; (R4) hex is EncodeToString/DecodeString around exactly wkb.Encode/Decode; (R5) the returned bytes are freshly allocated.",
+     "Not decided: encoding/binary's own behaviour (trusted: bit-exact float64 transfer); hence NaN payload preservation follows from that trust. Model sizes: up to 3 members per level, point arrays of 1024/1025/2049.",
      None)
 prop("C06", True,
-     "table extraction from the encoder type switch / decoder name switch with static nesting depth from go/types, shape rules for positions, affine identity-copy-loop analysis",
-     "(R1) each of the six types is written with its RFC 7946 name and a coordinates value whose static type nests exactly as required, the decoder's case for each name decodes that nesting and returns the same-named geom type, JSON members are type/coordinates; (R2) positions are [p.X, p.Y] and read back as X=e[0], Y=e[1] under len(e)==2; (R3) all 13 conversion loops are full-range identity maps into make(T, len(src)); (R4) Encode returns json.Marshal's error and an error for unsupported types; (R5) no type of the package defines JSON/text marshalling hooks, so number formatting and parsing stay encoding/json's (the trust base of the exact round trip).",
-     "Not decided: encoding/json's float formatting/parsing (trusted shortest round trip), interface{} decoding of numbers as float64.",
+     ME + " with encoding/json replaced by a tree model; SSA provenance analysis for result freshness; AST rule excluding custom JSON hooks",
+     "(R1) each of the six types is written with its RFC 7946 name and coordinates nested exactly as required and decodes back to the same geometry, on small geometries incl. empty members; (R2) malformed documents (wrong nesting, positions of 0/1/3 numbers, non-numbers, unknown types, nil) give an error, never a panic or a geometry; (R4) Encode returns json.Marshal's error and an error for unsupported types; (R5) no type of the package customises its JSON/text form; (R6) returned bytes are fresh.",
+     "Not decided: encoding/json's float formatting/parsing (trusted shortest round trip).",
      None)
 prop("C07", True,
-     "SSA taint analysis (source: memory written by encoding/binary.Read; sinks: make sizes; sanitizers: dominating clamps, bounded helper summaries), call-graph reachability with recovering-frame cut, path-sensitive error-before-use dataflow",
-     "Structural necessary conditions of totality: (R1) no allocation size reachable from wkb.Read/Decode or hex.Decode is an input count unless bounded at that point; (R2) every explicit panic, single-result assertion and index/slice expression reachable from the five decoder entry points is below the frame that recovers and sets the error result (GeoJSON) or statically safe (WKB/hex), and every value passed to panic implements error (the recovery asserts e.(error)); (R3) no decoder function uses a value before testing the error it was returned with. This covers the statement's 'never panics' and 'count fields are not trusted' for all inputs; tests sample zero malformed inputs.",
-     "Not decided: total memory as a multiple of input length beyond 'no allocation sized by an unchecked count' (encoding/json's own allocations, recursion depth); the re-encode/decode fixpoint. Trusted: encoding/binary, encoding/json, encoding/hex do not panic on the values passed. Reachability: static calls + function values resolved by signature within the package; interface method calls into the standard library are not followed.",
+     ME + " of the WKB and GeoJSON decoders on malformed inputs (typed-stream and tree models shared with C05/C06); path-sensitive error-before-use dataflow",
+     "(R1) every truncation of the model messages, counts of 2^28 with no or little payload, unknown codes, invalid flags and members of the wrong kind give an error, nothing panics and no make is sized by an announced count above the chunk limit; (R2) malformed GeoJSON documents give an error, never a panic; (R3) no decoder function uses a value before testing the error it was returned with; (R4) writer and reader agree on the layout, so a decoded value re-encodes to an accepted message.",
+     "Not decided: total memory as a multiple of input length beyond 'no allocation sized by an unchecked count'; encoding/json's and encoding/hex's own behaviour.",
      None)
 prop("C08", True,
-     "SSA backward data-dependence of closure results (through phis, allocs, field loads), registry table extraction, stage/role classification of the NewTransform pipeline",
-     "(R1) in all 14 forward/inverse closures of the registered projections every success return yields coordinates that depend on the inputs; (R2) the NewTransform pipeline is mirrored around the datum shift: ×/÷ ToMeter, ± FromGreenwich, deg2rad·r2d = 1, inverse member for the source and forward member for the destination, denorm false/true, stages in mirrored order; (R3) all eight projections are registered with constructors yielding both closures; (R4) in each inverse the longitude result depends on Long0 and the latitude does not; (R5) in the conic family (inverse lon = atan2(…)/N + λ0, discovered: lcc, aea, eqdc) the polar angle is taken of coordinates multiplied by ±1 following the sign of the cone constant. Necessary for inverse(forward(p)) = p; broken instances are total failures (Krovak inverse returned (0,0)).",
-     "Not decided: the projection formulas themselves, convergence of the iterative latitude solvers inside the usable region, tolerance figures. Dropping a solver's error was considered and rejected as a rule (not necessary for C08).",
+     "SSA backward data-dependence of closure results (through phis, allocs, field loads and repository helpers), registry table extraction, stage/role classification of the NewTransform pipeline (following helpers), scenario replay of the cone-sign variable",
+     "(R1) in all forward/inverse closures of the registered projections every success return yields coordinates that depend on the inputs; (R2) the NewTransform pipeline is mirrored around the datum shift; (R3) all eight projections are registered with constructors yielding both closures; (R4) in each inverse the longitude depends on Long0 and the latitude does not; (R5) in the conic family the polar angle is taken of coordinates multiplied by ±1 following the sign of the cone constant. Necessary for inverse(forward(p)) = p.",
+     "Not decided: the projection formulas themselves (three independently seeded formula changes — an LCC scale term, a transverse-Mercator sign, an Albers cone constant — are not reported), convergence of the iterative solvers, tolerance figures.",
      None)
 prop("C09", True,
-     "table agreement between Go composite literals (constants folded by go/types) and the bundled proj4js 2.3.12 sources read by a small JS-subset reader; typed-constant rule for integer division in float context; angle-unit type system (degree/radian) evaluated by path-sensitive AST dataflow against proj4js' own params table; call-order rule for the datum shifts; SSA operand-closure (simultaneity) and signed sum-of-products extraction for the Helmert shift; a two-point e/e² type system over call sites",
-     "(R1, complete for this clause) all 43 ellipsoids, 16 datums, 13 prime meridians, 2 units and 14 named numeric constants equal the bundled proj4js source as float64 (same key sets, towgs84 element-wise); (R2) no integer-constant quotient is used as a float coefficient; (R3) every PROJ.4 key that proj4js multiplies by D2R is multiplied by deg2rad exactly once on every path of its case and no linear/scale key is; (R4) no 2-D Transformer hop between two datum shifts; (R6) the 3/7-parameter datum shifts: outputs computed simultaneously (no returned ordinate is an SSA operand of another), each output = own ordinate ± p[3+third axis]·other ordinate with antisymmetric couplings and translation p[axis], the inverse uses the transposed matrix, opposite translation sign and divides by the scale; (R7) eccentricity typing e / e² (SR.E, SR.Es, sqrt, squares, 1−(B/A)²): every helper parameter receives one of the two at all call sites.",
-     "Not decided: numerical agreement of every projection formula with proj4js and with Snyder/Karney references (0.1 mm / 5 mm) — cross-language formula comparison was rejected as brittle; R5 (dimensional homogeneity) is not armed. One open known finding (R4: height dropped in the WGS84 hop, 0.93 mm).",
+     "table agreement between Go composite literals (constants folded by go/types) and the bundled proj4js 2.3.12 sources read by a small JS-subset reader; typed-constant rule for integer division in float context; " + ME + " of proj.Parse with a symbolic parameter value for the angle units; SSA operand-closure and signed sum-of-products extraction for the Helmert shift; a two-point e/e² type system over call sites; call-order rule for the datum shifts",
+     "(R1, complete for this clause) all ellipsoids, datums, prime meridians, units and named numeric constants equal the bundled proj4js source as float64; (R2) no integer-constant quotient is used as a float coefficient; (R3) every PROJ.4 key that proj4js multiplies by D2R stores P × deg2rad once and no other numeric key does, incl. named prime meridians; (R4) no 2-D Transformer hop between two datum shifts; (R6) the 3/7-parameter datum shifts are simultaneous, antisymmetric and inverse to each other in form; (R7) eccentricity typing e / e²; (R8) the NewTransform pipeline applies each reference's parameters once, mirrored.",
+     "Not decided: agreement of the projection formulas with proj4js (only their parameters and tables); one open known finding (R4: height dropped between two datum shifts, 0.93 mm).",
      None)
 prop("C10", True,
-     "path-sensitive error-before-use dataflow, affine index-map analysis of the copy loops, shape checks on the type-checked AST; SSA effect analysis of the transformer closures",
-     "Geometry side: (R3) in all eight Transform methods a member result returned with an error is never asserted/indexed/returned-with-nil before the error is tested; (R4) nil transformer returns the receiver, otherwise a fresh value of the receiver's shape filled by out[i]=t(in[i]) over the full range with X/Y passed and stored in order, the receiver never written, *Bounds becomes the 4-corner ring in ring order. Projection side (R1/R2) see level_note.",
-     "Not decided: numerical equality with a fresh transformer (follows from 'no state survives' only assuming deterministic float arithmetic). Projection side: (R1a) no Transformer closure assigns a captured variable (SSA store to a free variable), (R1b) none stores an argument-dependent value into captured/package state, (R1c) all 39 stores to SR/datum fields made by constructors and helpers on the per-call path are lazy initialisations, normalising overwrites from stable fields, or saved-and-restored temporaries (restore may be skipped only on error returns); (R2) constant indices into the coordinate slice are below the callers' literal length or behind a length guard.",
+     ME + " of the eight Transform methods with a host transformer (incl. failure at the k-th vertex) and of the axis adjustment; SSA effect analysis of the transformer closures (captured-variable stores, idempotence of per-call stores, save/restore); path-sensitive error-before-use dataflow",
+     "(R1) no per-call state survives in a Transformer: closures never assign captured variables or store argument-dependent values outside themselves, and every store the constructors/helpers make to a reference is a guarded lazy initialisation, a normalising overwrite from stable values or a save/restore; (R2) the axis adjustment never indexes beyond a 2-element coordinate slice; (R3) a member result returned with an error is never used before the error is tested; (R4) Transform with nil returns the receiver, otherwise a fresh value of the receiver's shape whose i-th vertex is T(i-th vertex), T called once per vertex in order, the receiver untouched, a failure at any vertex reported.",
+     "Not decided: numerical equality with a fresh transformer (follows from 'no state survives' assuming deterministic float arithmetic).",
      None)
 prop("C11", True,
-     "path-sensitive AST dataflow with balance facts (root/height, size), placement/parent-link pairing rules, post-dominance of the upward envelope pass over the package call graph, purity summaries, abstract interpretation over the order domain for the box predicates",
-     "Guttman bookkeeping decided on every path: (R1) every root store outside the constructor is balanced by height++/-- on all paths and every node creation sets its level; (R2) every placement of an entry with a possibly non-nil child into a node is paired with child.parent = node (or the entry already belongs to that node; the adjustTree sibling is discharged by the caller-side fact that split() links it); (R3) every mutation of a node's entries under Insert/Delete is followed before return by the upward pass that stores recomputed envelopes, and the pass itself visits every ancestor up to the root (loop form: condition is the root test, no break/return/continue, each iteration repairs the node's own entry or removes it; recursion form: every return is the root case or recurses on the parent after the repair; a root test by parent==nil is accepted only if every root store clears the parent link); (R4) Insert is size+1 on every path, Delete returns true only after one removal and one size--, and false only on effect-free paths (purity of findLeaf over the package call graph); (R6) intersect/containsRect/containsPoint/enlarge/boundingBox equal their order-level specification for every weak ordering, the search visits every intersecting entry with no other filter, the envelope fold covers all entries.",
-     "Not decided: that split/condense keep all leaves at one depth for every history; multiplicity of results; quadratic-split heuristics; fan-out below MinChildren after condensing. (R5) every append to a linked node's entries is followed by the MaxChildren test whose overflow branch splits that node. Field roles are discovered from Depth()/Size() and types, so renames do not matter.",
+     ME + " of NewTree/Insert/Delete/SearchIntersect/Size/Depth over histories of boxes with rank coordinates: envelopes are computed exactly by the repository code, the comparisons of the insertion heuristics (areas, enlargements) are symbolic and are resolved once by the geometry and several times by arbitrary consistent orders; exhaustive abstract interpretation of the box relations over all weak orderings; path-sensitive AST dataflow for size accounting and overflow tests",
+     "After every operation of three histories (fill, scattered drain to empty and refill, interleaved deletes of absent objects and duplicates, 36 boxes to height three) under several branching parameters and heuristic resolutions: (R1) leaves at one depth = Depth(), no dangling child, no panic; (R2) parent links follow entries; (R3) every entry's box is the exact envelope of its subtree; (R4) Size() and the stored multiset equal the history's, Delete true/false as specified and without effect when false (plus the every-path rule for size++/--); (R5) fan-out ≤ MaxChildren (plus the every-path overflow test); (R6) SearchIntersect equals a scan for disjoint, touching, overlapping, degenerate and all-covering queries, and every box relation of the package is closed intersection / containment / join in all orderings.",
+     "Not decided: histories longer or differently shaped than the three modelled; MinChildren fill (not part of the property). The model run found the drain-and-refill panic repaired in a139d91 (fixed entry in known_findings.json).",
      None)
 prop("C12", True,
-     "bound-derivation dataflow over the package (which values derive from MINDIST vs another point-to-box bound), k-dependence closure from the query's k parameter, shape rules for the leaf scans",
-     "Thin: (R1) below NearestNeighbors(k,p) no comparison that excludes a branch depends on a bound other than MINDIST unless it also depends on k (MINMAXDIST only promises one object); (R2) both leaf scans offer every entry's MINDIST from the query point and the entry's object to the accumulator over the full range, with the same bound function; (R3) the 1-NN exclusion by MINMAXDIST keeps entries whose MINDIST equals the bound; (R4) squared vs linear distances: bounds return squares, math.Sqrt makes them linear, no comparison mixes the two; (R5) the exact-envelope premise of the bounds: C11's envelope-maintenance obligations, re-established here.",
-     "Not decided: ordering/exactness of returned distances, the MINDIST-ordered descent, tie handling, insertNearest's slice arithmetic.",
+     ME + " of NearestNeighbor/NearestNeighbors on hand-built trees with the two point-to-box bounds replaced by tables, over every weak ordering of the object distances and every admissible choice of inner bounds; the bound functions themselves compared with MINDIST² / MINMAXDIST² as polynomials in symbolic coordinates; squared/linear unit dataflow",
+     "(R1) NearestNeighbors(k,p) returns k slots, the first min(k,n) holding distinct stored objects at the k smallest distances in non-decreasing order, for k ∈ {1,2,n,n+1}; (R2) NearestNeighbor returns the object at the least distance; (R3) with ties it returns one of the nearest (no strict exclusion by MINMAXDIST); (R4) no comparison mixes squared and linear distances; (R5) premise: exact envelopes and parent links after every Insert/Delete (C11 model); (R6) each point-to-box function equals MINDIST² or MINMAXDIST² (Roussopoulos et al., def. 4) for all 16 placements of the point.",
+     "Not decided: trees deeper than two inner levels or with more than five objects in the quick tier (the thorough tier adds a four-leaf tree).",
      None)
 prop("C13", True,
-     "stutter-path detection (symbolic header-to-header paths + interval feasibility over len(x)), path-sensitive vetting dataflow, shape rules on the append sites, affine copy-loop analysis",
-     "Structural necessary conditions: (R1) the curve simplifier has no loop path that changes nothing its conditions read and is feasible on the first iteration (definite non-termination, witness interval on len(curve)); (R2) output fresh, every appended vertex is an input vertex, input never written, first vertex kept first, exit flag raised only right after appending the last vertex and is the only way out; (R3) every kept vertex is the scan start, adjacent to the previous kept one, or its replacing segment was tested against kept output, remaining input and other curves; (R4) Multi* methods map member i to index i over the full range and Polygon passes all rings as obstacles; (R5) the deviation measure is the distance to the replacing segment: projection parameter clamped to [0,1], no 0/0.",
-     "Not decided: the tolerance guarantee, order of kept indices, termination on later iterations / for self-intersecting inputs (documented upstream as out of contract). One open known finding (R3: the final 'append last point regardless' segment is not vetted).",
+     ME + " of LineString.Simplify and Polygon.Simplify with the point-to-segment distance and the simplicity test replaced by oracles, every combination of answers to the questions actually asked enumerated depth-first; comparison-fact dataflow for the clamped projection; AST rules for the member methods and the exactness of the crossing test",
+     "On curves of 0–5 vertices (thorough 6; up to 7 with the simplicity oracle fixed) and curves with a repeated vertex: (R1) every run returns, none panics; (R2) the result is a fresh order-preserving subsequence that starts with the first and ends with the last vertex, the input unchanged; (R3) every dropped vertex's distance to the replacing segment was asked and answered within tolerance, and every replacing segment was tested against the kept output, the rest of the curve and the other curves; (R4) Multi* members are simplified independently into a fresh result; (R5) the deviation is the distance to the segment (clamped, no 0/0); (R6) the crossing test behind the simplicity oracle uses tolerance 0.",
+     "One open known finding (R3: the segment reaching the last vertex is appended untested; a simple 6-vertex line becomes self-intersecting). Not decided: the simplicity test's own geometry beyond R6.",
      None)
 prop("C14", True,
-     "operation-constant extraction along call paths, affine copy/strip loop analysis, AST rule over the dependency's segment loop",
-     "Thin by nature (the clipping is done by the external clipper): (R1) the line(s) become the subject contours one-to-one, the polygon is the clipping operand, the mode is CLIPLINE; (R2) every returned piece is result[i][0:len-1], i.e. strips exactly the one vertex the result converter appends; (R3) the clipper skips the subject's closing segment in CLIPLINE mode; (R4) no conditional return or skipped member ahead of the clipper call unless implied by disjoint closed bounding boxes, and then the result is empty.",
+     ME + " with the external clipper replaced by a recorder (shared with C01); AST rule over the dependency's segment loop; implication check of conditional exits against the box relation",
+     "Thin by nature (the clipping is done by the external clipper): (R1) the line(s) become the subject contours one-to-one, the polygon's rings the clipping operand, the mode is CLIPLINE; (R2) every returned piece is the clipper's contour without the one closing vertex the converter appends; (R3) in CLIPLINE mode the clipper does not add the subject's closing segment; (R4) a conditional exit before the clipper is allowed only when the closed boxes share no point and then returns an empty result; (R5) the conversion helpers convert every contour, ring and vertex at its own index.",
      "Not decided: everything the external clipper computes (that pieces lie on L and inside P, total length, emptiness).",
      None)
 prop("C15", True,
-     "path-sensitive AST dataflow (must-facts) + callee summaries + shape matching on the type-checked program",
-     "Structural necessary conditions of symmetry and of 'false when counts/types differ', decided on every path of every Similar method: "
-     "(R1) each possibly-true result is preceded by a member-count equality test (directly, through a length-checking helper, or a final emptiness test of the unmatched remainder); "
-     "(R2) possibly-true results occur only after the argument was found to have the receiver's type; "
-     "(R3) the scalar test is |a-b|<tol on matching axes, list comparison is element-wise over the full range, and the ring comparison makes at least len-1 steps from the two anchors with both cursors advanced by the same successor and no early exit. "
-     "This is the right level because the matching semantics under permutation/rotation quantifies over float inputs and is not decidable from shape; the clauses above are and each, if broken, yields a concrete asymmetric pair.",
-     "Not decided: the greedy matching itself (ambiguous matches, ring rotation by minPt/nextPt). Trusted: go/types resolution; idioms enumerated in checker/c15.go (type switch bound/unbound, comma-ok, len compare, helper call).",
+     ME + " of Similar on model pairs for each of the eight types in both argument orders; AST rule for the scalar tolerance test",
+     "(R1) Similar is true for a perturbed copy, also with members reordered and closed rings rotated; false when a vertex is displaced, a member or vertex added or removed, a line reversed, or a duplicated member stands against a different one; and symmetric in all these cases; (R2) false for every ordered pair of different geometry types; (R3) the scalar test is |a−b| < tol, strict, bounding both signs.",
+     "Not decided: pairs larger than the models (up to 3 members / 5 vertices), near-tolerance ambiguities between several members.",
      None)
 prop("C16", True,
-     "table extraction (type-name switch, type switch, reflect.TypeOf case list) joined with SSA return types; symbolic part-range loop analysis (dst[j-start]=src[j], start<=j<end) plus affine identity-copy analysis; shape rule for ring closing; constant-folded width inequalities",
-     "(R1) the four-column table type name → shape-type constant → concrete go-shp shape built → geom type rebuilt is consistent for Point, LineString, MultiLineString, Polygon, *Bounds, MultiPoint; (R2) the part-boundary helper is parts[i]..parts[i+1] / len(points), and all 12 geometry copy loops (both directions, M/Z variants included) are identity index maps over the full part or collection range, whatever the loop direction; (R3) rings are closed by appending the first vertex exactly when non-empty and first≠last, to a slice that owns its backing array; (R5) the decoder's column index and every lookup are lower-cased and DecodeRow looks each field up by its tag and, independently, by its name; (R4) encoder and decoder attribute kinds are both {int,float64,string} and the folded widths satisfy string≥50, int≥10, float precision≥10 and width≥1+17+1+precision.",
-     "Not decided: go-shp's file I/O and dBase formatting, float text round trip to 10 decimals, that EncodeFields ignores WriteAttribute errors (noted by errcheck; outside every clause).",
+     ME + " of the shapefile package at the go-shp boundary: reflect is described by go/types (struct fields, tags, kinds, assignability), go-shp by a file model (a record is read back as the file's shape type with the counts it declares; attributes come back as NUL-padded text), strings/bytes/strconv helpers are evaluated on the concrete texts; path rules for the row cursor and the column lookup",
+     "For both NewEncoder/Encode/DecodeRow and NewEncoderFromFields/EncodeFields/DecodeRowFields: (R1) each supported geometry type is written into a file of the matching shape type and comes back as the expected geom type; (R2) geometries of 1–6 parts with 0–7 vertices (empty parts included) come back part by part, vertices in order, declared counts consistent; (R3) rings come back closed exactly when needed, boxes as five-vertex rectangles; (R4) int/float64/string fields become columns of the documented widths and come back equal (50-byte strings, NUL padding); (R5) columns are matched by lower-cased tag, else name, case-insensitively, unmatched fields untouched; (R6) records come back in order, each with its own row's attributes, then end of file and a nil Error().",
+     "Not decided: go-shp's own file I/O and dBase number formatting (modelled, not analysed), float text round trip to 10 decimals beyond the column widths, null shapes.",
      None)
 prop("C17", True,
-     "emission-grammar extraction: abstract interpretation of the appender functions with every loop unrolled for 1,2,3 members per nesting level, token strings parsed by an OGC WKT recogniser held in the checker; constant-argument rule for strconv; support table",
-     "Strong on well-formedness: (R1) for each of the five supported types and all 3^depth member-count combinations (first/middle/last member all occur) the emitted token string is accepted by the OGC BNF, has the member counts of the geometry at every level and lists every coordinate exactly once in storage order, X before Y; (R2) every float is formatted with precision -1, 64 bits, format in eEfgG (shortest round trip); (R3) exactly the five types are encoded and everything else reaches the error return.",
-     "Not decided: strconv's contract (trusted). Bounds: member counts {1,2,3} per level realise every index predicate the appenders may test (i==0, i==len-1 and their negations); predicates on other positions would be UNDECIDED.",
+     ME + " of wkt.Encode with strconv's float formatting replaced by coordinate tokens; the emitted text is parsed by an OGC WKT recogniser held in the checker; SSA provenance analysis for result freshness",
+     "(R1) for each of the five supported types and all member-count combinations 1..3 per nesting level the emitted text is accepted by the OGC WKT grammar with the right member counts at every level and every coordinate once, in storage order, X before Y; (R2) every float formatting performed uses a format in eEfgG, precision -1, 64 bits (shortest round-tripping text); (R3) exactly Point, LineString, MultiLineString, Polygon and MultiPolygon are encoded, everything else is an error; (R4) the text is freshly allocated.",
+     "Not decided: strconv's contract (trusted).",
      None)
 prop("C18", True,
-     "lockset analysis (path-sensitive must-hold locksets with defer, field→mutex table derived from the struct), lock-order graph over the package call graph, pairing rules for dependency registration, fixpoint-completeness rule from the KeepFuncs' read set, sibling summary comparison",
+     "lockset analysis (path-sensitive must-hold locksets with defer, field→mutex table derived from the struct), lock-order graph over the package call graph, flow facts for the pass barrier and the pass flag (captured variable or mutex-guarded field reached through methods), reporter chains for dependency registration, fixpoint-completeness rule from the KeepFuncs' read set, sibling summary comparison",
      "For all schedules of the worker pool (the quantifier tests cannot reach): (R1) every access to the six guarded maps in code reachable from the errgroup workers (incl. the KeepFunc closures) holds the map's mutex in the right mode, the another-pass flag is written only under its mutex and untouched by the spawner between Go and Wait; (R2) every acquire is released on all exits and the acquisition-order graph incl. callee acquisitions is acyclic; (R3) all 8 dependency registrations set the another-pass result and no caller discards it; (R4) every concurrent store into a set that a KeepFunc consults must request another pass (fixpoint completeness); (R5) process* and *NoCopy twins have the same guard→effect summary.",
      "Not decided: minimality of the result, equality with a sequential model, termination of the pass loop. Three open known findings under R4 (KeepBounds reads Nodes/Ways/Relations while workers fill them; schedule replayed in demos/osm_whitebox).",
      None)
@@ -115,9 +111,9 @@ prop("C19", True,
      "Not decided: optimality of gonum's A* itself, node snapping tolerance (newNode / op.PointEquals), behaviour for disconnected nodes.",
      None)
 prop("C20", True,
-     "table agreement between the WKT PARAMETER switch and the PROJ.4 key switch against an OGC↔PROJ correspondence table held in the checker; unit rules (deg2rad / ToMeter) on the type-checked AST; registry extraction; path-sensitive rule for the identity shortcut",
-     "(R1) the 11 corresponding WKT/PROJ.4 parameter names set the same SR field; (R2) WKT angular parameters × deg2rad, linear ones not, false origin × ToMeter exactly once after all sections are parsed, UNIT factor stored unchanged for projected systems; (R3) each of the five WKT projection names is registered for the same constructor as its PROJ.4 short name and every alias in the definition registry is bound to the identical *SR; (R4) NewTransform returns the nil transformer exactly on the Equal-true path; (R5) Equal's reflective worker: the float case continues exactly when both values are NaN or neither is and they agree (truth table over isNaN/withinULP with helper inlining), slice elements are indexed only after a length-equality test, pointees compared only after nil-parity and non-nil tests.",
-     "Not decided: micrometre agreement of the resulting transformers, SPHEROID/DATUM/TOWGS84 clause handling beyond the tables (datum renaming heuristics).",
+     ME + " of proj.Parse with symbolic parameters: every number in the PROJ.4 and OGC WKT texts is a placeholder that becomes a symbol, unit conversions and DeriveConstants are carried as normal-form polynomials, branches on parameter values follow a stated reference valuation (an ordinary ellipsoid); the definition registry is read after interpreting the package's init functions; SR.Equal is interpreted on parsed references with reflection described by go/types; path rules for NewTransform's identity shortcut and the parse loops",
+     "(R1) the WKT and PROJ.4 texts of the same system (five WKT projection names, centre/azimuth and central_parallel variants, a geographic system) store every parameter in the same SR field; (R2) angles come out as symbol × deg2rad from either spelling, ratios bare, the WKT false origin as symbol × declared unit whatever the clause order, UNIT reaches ToMeter, SPHEROID[a,1/f] and +a +rf give identical derived constants; (R3) both projection names map to the same constructor; every registered name is a definition equal to a fresh parse of its text or an alias bound to the identical *SR; (R4) NewTransform returns nil exactly where Equal is true; (R5) Equal is true for two parses of one text and false — never a panic — when any float, NaN marker, string, flag, datum-shift value or length, or nested pointer differs; (R6) parameters are applied in textual order; (R7) datum-shift lists keep every value in order.",
+     "Not decided: micrometre agreement of the resulting transformers; parameter regions that take other branches than the reference valuation (spheres, rf = 0); datum renaming heuristics.",
      None)
 
 def main():
@@ -134,7 +130,7 @@ def main():
             "evidence_file": "/verif/evidence/%s.json" % id,
             "replay_cmd_template": "./bin/geomcheck replay {path}",
             "engine": "geomcheck",
-            "level_claimed": {"category": "other", "text": p["text"], "design_ref": "DESIGN.md §3 " + id},
+            "level_claimed": {"category": "other", "text": p["text"], "design_ref": "DESIGN.md §10 and Appendix D, " + id},
             "level_note": p["note"],
             "technique": "static analysis: " + p["technique"],
         })
@@ -152,11 +148,11 @@ def main():
             "name": "geomcheck",
             "path": "/verif/checker",
             "serves_properties": [c["property_id"] for c in checks],
-            "kind_free_text": "repository-specific static analyser (go/packages + go/types + structured AST dataflow + go/ssa + call graph, x/tools v0.29.0); never executes code from /repo",
+            "kind_free_text": "repository-specific static analyser (go/packages + go/types + structured AST dataflow + go/ssa + call graph, x/tools v0.29.0) with its own abstract interpreter for Go source (order domain, symbolic polynomials, modelled library boundary); never builds or executes code from /repo",
         }],
         "checks": checks,
         "not_applicable": na,
-        "notes": "All claims are at level 'other': structural necessary conditions decided statically from /repo's current source; see DESIGN.md §0. Known findings: /verif/known_findings.json.",
+        "notes": "All claims are at level 'other': necessary conditions of each property decided statically from /repo's current source — structural rules and model evaluation on bounded abstract inputs; see DESIGN.md §0 and §10. Known findings: /verif/known_findings.json.",
     }
     with open(os.path.join(HERE, "MANIFEST.json"), "w") as f:
         json.dump(m, f, indent=1)
